@@ -46,7 +46,7 @@ CORPORA = {
                  profiles=DEV_REL, place="end"),
     "boxed": dict(model="MC_Build", cfg="MC_Boxed", quick=dict(MaxTotal=8), thorough=dict(MaxTotal=17), profiles=DEV_REL, place="end"),
     "builder": dict(model="MC_Build", cfg="MC_Builder", quick=dict(MaxSeq=2), thorough=dict(MaxSeq=3), profiles=DEV_REL, place="end"),
-    "hbuilder": dict(model="MC_Build", cfg="MC_HBuilder", quick=dict(MaxSeq=3, BigRequests="{2039, 2040, 2041}"), thorough=dict(MaxSeq=4, BigRequests="{2039, 2040, 2041, 4096, 16384}"), profiles=DEV_REL, place="end"),
+    "hbuilder": dict(model="MC_Build", cfg="MC_HBuilder", quick=dict(MaxSeq=3, BigRequests="{2039, 2040, 2041}"), thorough=dict(MaxSeq=4, BigRequests="{2039, 2040, 2041, 3000}"), profiles=DEV_REL, place="end"),
     "str": dict(model="MC_Str", quick=dict(MaxStr=3), thorough=dict(MaxStr=4, StrKinds='{"cmdline"}'), profiles=DEV_REL, place="both"),
     "typeids": dict(model="MC_TypeIds", quick={}, thorough={}, profiles=DEV_REL, place="end"),
     "rsdp": dict(model="MC_Rsdp", quick={}, thorough={}, profiles=DEV_REL, place="both"),
